@@ -5,8 +5,11 @@ import json, os, sys
 M = []
 
 
-def mut(id, prop, expect, *edits):
-    M.append({"id": id, "property": prop, "expect": expect, "edits": [{"file": f, "find": a, "replace": b} for (f, a, b) in edits]})
+def mut(id, prop, expect, *edits, base=None):
+    m = {"id": id, "property": prop, "expect": expect, "edits": [{"file": f, "find": a, "replace": b} for (f, a, b) in edits]}
+    if base:
+        m["base"] = base  # a refactoring of selftest/refactors applied first
+    M.append(m)
 
 
 S = "src/search.rs"
@@ -166,9 +169,24 @@ mut("C10-is-running-always-true", ["C10", "C09"], "is_running", (S, "        sel
 
 mut("C09-budget-from-opponents-clock", "C09", "time-budget", (S, "            Color::White => {\n                self.limits.white_time.unwrap_or(0) / 20", "            Color::White => {\n                self.limits.black_time.unwrap_or(0) / 20"))
 
+# ---- seeded changes made to REFACTORED code: the rules must follow the extracted helpers and still see the breakage
+R = "selftest/refactors/"
+mut("R-C13-drop-child-guard-in-helper-form", "C13", "guard:search::Search::alpha_beta:write=insert[Lower]",
+    (S, "            // The child may have been cut short and returned a dummy score: don't use or cache it\n            if self.should_abort(start) {\n                return 0;\n            }\n", ""), base=R + "R1-refactor2.diff")
+mut("R-C13-should-abort-ignores-limits", "C13", "guard", (S, "        !self.is_running() || self.limits_exceeded(start)\n    }", "        !self.is_running()\n    }"), base=R + "R1-refactor2.diff")
+mut("R-C03-revoke-wrong-kind-at-call-site", "C03", "revocation-table",
+    (B, "            (Kind::Rook(Color::White), Square { rank: 0, file: 7 }) => {\n                self.revoke(new_move, CastlingKind::WhiteKingside);", "            (Kind::Rook(Color::White), Square { rank: 0, file: 7 }) => {\n                self.revoke(new_move, CastlingKind::WhiteQueenside);"), base=R + "R2-refactor2.diff")
+mut("R-C04-revoke-helper-skips-key", "C04", "castle-pair", (B, "            self.zkey.change_castling_rights(kind);\n            *right = CastlingStatus::Unavailable;", "            *right = CastlingStatus::Unavailable;"), base=R + "R2-refactor2.diff")
+mut("R-C06-magic-index-helper-off-by-one", "C06", "scheme", ("src/board/piece/rook.rs", "(product >> (64 - Self::INDEX_BITS[square])) as usize", "(product >> (63 - Self::INDEX_BITS[square])) as usize"), base=R + "R3-refactor2.diff")
+mut("R-C02-finish-move-push-conditional", "C02", "stack", (B, "        self.history.push(new_move);\n    }", "        if !new_move.is_castles {\n            self.history.push(new_move);\n        }\n    }"), base=R + "R2-refactor4.diff")
+mut("R-C09-announce-helper-skips-when-none", "C09", "one-site", (S, "        self.log(format!(\"bestmove {best_move}\").as_str());\n    }", "        if self.info.best_move.is_some() {\n            self.log(format!(\"bestmove {best_move}\").as_str());\n        }\n    }"), base=R + "R1-refactor4.diff")
+
+
 if __name__ == "__main__":
     missing = []
     for m in M:
+        if m.get("base"):
+            continue  # anchors live in the refactored tree
         for e in m["edits"]:
             s = open(os.path.join("/repo", e["file"])).read()
             if e["find"] not in s:
